@@ -10,7 +10,7 @@ import re
 from datetime import datetime, timedelta, timezone
 
 from ..models import hostile
-from ..monitors.reach import Reach
+from ..monitors.reach import Reach, opt
 
 ID = "C06"
 RULE = (
@@ -90,13 +90,25 @@ def check_string(cx, http, DS, s):
         d = http.quote_header_value(s, allow_token=False)
         cx.eq("quote", s, d, http.unquote_header_value(d), s, "C06/quote-notoken")
         d = http.dump_header([s, "x", s])
-        cx.eq("list", s, d, http.parse_list_header(d), [s, "x", s])
+        first = http.parse_list_header(d)
+        cx.eq("list", s, d, first, [s, "x", s])
+        first.append("injected")
+        cx.eq("list", s, d, http.parse_list_header(d), [s, "x", s], "C06/list-parse-result-aliased")
         v = {"k": s, "j": None, "l": s}
         d = http.dump_header(v)
-        cx.eq("dict", s, d, http.parse_dict_header(d), v)
+        first = http.parse_dict_header(d)
+        cx.eq("dict", s, d, first, v)
+        first["injected"] = "1"
+        cx.eq("dict", s, d, http.parse_dict_header(d), v, "C06/dict-parse-result-aliased")
         if "%22" not in s:
             d = http.dump_options_header("text/x", {"k": s, "l": "z"})
-            cx.eq("options", s, d, http.parse_options_header(d), ("text/x", {"k": s, "l": "z"}))
+            first = http.parse_options_header(d)
+            cx.eq("options", s, d, first, ("text/x", {"k": s, "l": "z"}))
+            # a caller may edit what it got back (Request.mimetype_params hands the dict out): a later parse of an
+            # equal header must not see that edit
+            first[1]["injected"] = "1"
+            first[1].pop("k", None)
+            cx.eq("options", s, d, http.parse_options_header(d), ("text/x", {"k": s, "l": "z"}), "C06/options-parse-result-aliased")
         exp = [s, "x"] if s.lower() != "x" else [s]
         d = http.dump_header(exp)
         cx.eq("set", s, d, list(http.parse_set_header(d)), exp)
@@ -370,12 +382,12 @@ def run(shard, rec, rng):
     from werkzeug import http
 
     reach = Reach(rec, {
-        "quote_header_value": http.quote_header_value, "unquote_header_value": http.unquote_header_value,
-        "dump_header": http.dump_header, "dump_options_header": http.dump_options_header,
-        "parse_list_header": http.parse_list_header, "parse_dict_header": http.parse_dict_header,
-        "parse_options_header": http.parse_options_header, "parse_set_header": http.parse_set_header,
-        "http_date": http.http_date, "parse_date": http.parse_date, "dump_age": http.dump_age, "parse_age": http.parse_age,
-        "Authorization.to_header": DS.Authorization.to_header, "WWWAuthenticate.to_header": DS.WWWAuthenticate.to_header,
+        "quote_header_value": opt(lambda: http.quote_header_value), "unquote_header_value": opt(lambda: http.unquote_header_value),
+        "dump_header": opt(lambda: http.dump_header), "dump_options_header": opt(lambda: http.dump_options_header),
+        "parse_list_header": opt(lambda: http.parse_list_header), "parse_dict_header": opt(lambda: http.parse_dict_header),
+        "parse_options_header": opt(lambda: http.parse_options_header), "parse_set_header": opt(lambda: http.parse_set_header),
+        "http_date": opt(lambda: http.http_date), "parse_date": opt(lambda: http.parse_date), "dump_age": opt(lambda: http.dump_age), "parse_age": opt(lambda: http.parse_age),
+        "Authorization.to_header": opt(lambda: DS.Authorization.to_header), "WWWAuthenticate.to_header": opt(lambda: DS.WWWAuthenticate.to_header),
     })
     cfg = TIERS[shard["_tier"]]
     cx = Ctx(rec)
